@@ -20,7 +20,7 @@ S(e) ==
    recAt |-> e.recat, chgAt |-> e.chgat, setAt |-> e.setat,
    height |-> e.h, hHeap |-> e.hrch, hAhh |-> e.hahh,
    par |-> e.par, cip |-> e.cip, pic |-> e.pic, scope |-> e.scope,
-   force |-> e.force, numH |-> e.numh,
+   force |-> e.force, numH |-> e.numh, nsubs |-> [i \in 1..e.n |-> <<>>],
    nobs |-> [i \in 1..e.n |-> SeqSet(e.nobs[i])],
    rhs |-> e.rhs, edges |-> e.edges, fstale |-> e.fstale,
    rel |-> SeqSet(e.rel),
